@@ -555,6 +555,7 @@ type srvReport struct {
 	ncut     int
 	nsep     int
 	note     string
+	stalled  bool  // the whole response was delivered but the client's handshake call did not finish in time
 	err      error // harness trouble (inconclusive), not a finding
 }
 
@@ -690,8 +691,13 @@ func (sv *server) serve(p Params, round int, seed int64, hs *hsState, out chan<-
 	}
 	select {
 	case <-hs.sig:
-	case <-time.After(6 * time.Second):
-		rep.err = errors.New("client handshake did not complete within 6s")
+	case <-time.After(stallBudget()):
+		// The response is complete and the server keeps the connection open, yet the client's
+		// handshake call neither accepted nor rejected. Hang up (which unblocks the client) and
+		// let the monitor judge it as "no result"; this is a bounded-time observation, so the
+		// check re-runs the scenario with a larger budget before believing it.
+		rep.stalled = true
+		rep.note += "client-stalled; "
 		return
 	}
 	if hs.ok.Load() && pos < len(stream) {
@@ -1021,6 +1027,9 @@ func (sc *scenario) round(rn int, rd Round) error {
 			rs.Note += fmt.Sprintf("model R=%d real R=%d; ", rd.R, rep.rlen)
 		}
 		end.Cbytes = rep.cbytes
+		if rep.stalled {
+			res.Err = "stalled"
+		}
 		sc.sepN += rep.ncut
 		sc.sepOK += rep.nsep
 		evs = append(evs, rq, rs)
@@ -1039,6 +1048,18 @@ func (sc *scenario) round(rn int, rd Round) error {
 }
 
 var errAbandon = errors.New("scenario abandoned after a panic in the library")
+
+// stallBudget: how long the server waits for the client's handshake call to
+// finish after the last byte of a complete response (VERIF_SLOW scales it).
+func stallBudget() time.Duration {
+	k := 1
+	if v := os.Getenv("VERIF_SLOW"); v != "" {
+		if n, err := strconv.Atoi(v); err == nil && n > 1 {
+			k = n
+		}
+	}
+	return time.Duration(3*k) * time.Second
+}
 
 // compare the observation with the model's prediction (drift is reported,
 // never a verdict)
